@@ -24,6 +24,11 @@ def fmt6_independent(v):
     return str(Decimal(v).quantize(Decimal('0.000001'), rounding=ROUND_HALF_EVEN))
 
 
+def value_text(v):
+    """a float is written with six decimals, anything else (an int of the Multivariate adapter) as it is"""
+    return fmt6_independent(v) if isinstance(v, float) else '%s' % (v,)
+
+
 def effective(cfg, suite, bench, key, default):
     val = cfg.get('runs', {}).get(key, default)
     su = cfg['benchmark_suites'][suite]
@@ -45,6 +50,11 @@ def gen_scenario(rng, quick, opts=None):
                       'stop': None})
     if rng.random() < 0.25:
         specs[0]['stop'] = rng.randint(1, 6)
+    for sp in specs[1:]:          # a later session started with -c: discard what the earlier ones recorded
+        if rng.random() < 0.2:
+            sp['clean'] = True
+    if rng.random() < 0.05:
+        specs[0]['clean'] = True
     return {'cfg': cfg, 'specs': specs, 'seed': rng.randint(0, 10 ** 9), 'argv': ['-f'] if rng.random() < 0.15 else []}
 
 
@@ -66,7 +76,9 @@ def run_scenario(ck, scen, tag):
         build_ok = [rng.random() < 0.85 for _ in probe.builds]
     if scen.get('hostile') and not scen.get('hostile_applied'):
         # criteria that RebenchLog's [^:]{1,30} admits and that contain a TSV separator
-        for per in outputs:
+        for ri, per in enumerate(outputs):
+            if probe.runs[ri].get('adapter') != 'RebenchLog':
+                continue      # only RebenchLog's criterion pattern admits such characters
             for o in per:
                 if o is None:
                     continue
@@ -93,9 +105,12 @@ def run_scenario(ck, scen, tag):
     prev = [''] * len(probe.files)
     for spec in scen['specs']:
         script = dp.make_script(probe, outputs, build_ok, stop=spec.get('stop'), raw=raw)
-        ob = dp.run_real_session(wd, probe, ['-s', spec['sched']] + list(scen.get('argv', [])), script,
+        ob = dp.run_real_session(wd, probe, ['-s', spec['sched']] + (['-c'] if spec.get('clean') else [])
+                                 + list(scen.get('argv', [])), script,
                                  random_choice=dp.choice_fn(spec['choices']) if spec['sched'] == 'random' else None)
-        ob.before = prev
+        # -c / --clean: the session starts from truncated files, whatever earlier sessions recorded
+        ob.before = [''] * len(probe.files) if spec.get('clean') else prev
+        ob.clean = bool(spec.get('clean'))
         prev = ob.files
         observed.append(ob)
         ck.impl_traces += 1
@@ -107,7 +122,7 @@ def compare_and_judge(ck, items):
     ops = []
     for (scen, probe, outputs, build_ok, observed) in items:
         specs = [{'sched': s['sched'], 'choices': s['choices'], 'stop': model_stop(s.get('stop'), ob),
-                  'order': [i for i in (ob.order or []) if i is not None]}
+                  'clean': bool(s.get('clean')), 'order': [i for i in (ob.order or []) if i is not None]}
                  for s, ob in zip(scen['specs'], observed)]
         ops.append(dp.scenario_op('c06.sessions', probe, outputs, build_ok, specs))
     answers = ck.model(ops)
@@ -130,6 +145,8 @@ def judge(ck, inp, probe, outputs, build_ok, observed, ans):
     multi = sum(1 for r in probe.runs if len(r['files']) > 1)
     ck.count('files:%d' % n_files)
     ck.count('sessions:%d' % len(observed))
+    if any(getattr(ob, 'clean', False) for ob in observed[1:]):
+        ck.count('history-with--c-after-recording')
     ck.count('runs-in-2+-files' if multi else 'runs-in-1-file')
     ck.count('builds:%d' % len(probe.builds))
     most = max([len(o) for per in outputs for o in per if o] or [0])
@@ -186,11 +203,11 @@ def expected_meas(probe, outputs, ob, fi):
         if o is None:
             continue
         for j, ms in enumerate(o):
-            for (crit, unit, v) in ms:
+            for (crit, unit, v) in dp.written_order(ms):
                 if run['profile']:
                     exp.append([str(s[2]), '1', '0.000000', '', 'total'] + run['cols'])
                 else:
-                    exp.append([str(s[2]), str(j + 1), fmt6_independent(v), unit, crit] + run['cols'])
+                    exp.append([str(s[2]), str(j + 1), value_text(v), unit, crit] + run['cols'])
     # in the shape a reader sees: split at tabs (a configured text may itself contain one)
     return ['\t'.join(e).split('\t') for e in exp]
 
